@@ -121,7 +121,7 @@ func wrap2(l *zerolog.Logger, mech, k int) {
 // CallerSkipFrame(k) / Caller(k) / CallerWithSkipFrameCount(2+k) move the site exactly k frames up.
 func VH_C19_skip_frames() {
 	capture()
-	mech := zzverif.Choice(6)
+	mech := zzverif.Choice(8)
 	k := zzverif.Choice(3)
 	base := zerolog.New(&sink{})
 	var l zerolog.Logger
@@ -133,6 +133,14 @@ func VH_C19_skip_frames() {
 		l, wmech = base, 3
 	case 5:
 		l, wmech = base.With().Caller().Logger(), 4
+	case 6, 7:
+		// the global CallerSkipFrameCount, adjusted AFTER the logger was built (package-level
+		// logger, global set later in main): read when the event is finalized
+		l = base
+		if mech == 6 {
+			l = base.With().Caller().Logger()
+		}
+		zerolog.CallerSkipFrameCount += k
 	case 2:
 		l = base.With().Caller().Logger()
 	case 3:
@@ -148,7 +156,17 @@ func VH_C19_skip_frames() {
 		_, ln2 := zzverif.Here()
 		lineH = ln2 + 2
 		wrap2(&l, 2, 0)
+	} else if mech == 6 {
+		_, ln2 := zzverif.Here()
+		lineH = ln2 + 2
+		wrap2(&l, 2, 0)
+	} else if mech == 7 {
+		_, ln2 := zzverif.Here()
+		lineH = ln2 + 2
+		wrap2(&l, 0, 0)
 	} else {
+		_, ln2 := zzverif.Here()
+		lineH = ln2 + 2
 		wrap2(&l, wmech, k)
 	}
 	want := []int{lineW1, lineW2, lineH}[k]
